@@ -1,6 +1,7 @@
 import RsModel.Model.Stream
 import RsModel.Lemmas.ProvTree3
 import RsModel.Lemmas.ReplaceOrig
+import RsModel.Lemmas.ProvChunks
 /-!
 # C04 — mappings point to where the text really came from
 (leaf level: an OriginalSource maps every token to its own position; the composites are tied by correspondence)
@@ -130,5 +131,36 @@ example : (replaceStream (sortRepls [⟨1, 2, [88, 89], none, 1⟩]) (streamOrig
        .chunk (some [88, 89]) ⟨1, 1, some ⟨0, 1, 1, none⟩⟩,
        .chunk (some [99, 10]) ⟨1, 3, some ⟨0, 1, 2, none⟩⟩,
        .chunk (some [100]) ⟨2, 0, some ⟨0, 2, 0, none⟩⟩] := by decide
+
+/-! ## ReplaceSource over any tree of OriginalSource and raw leaves under ConcatSource -/
+
+/-- **C04, ReplaceSource over a ConcatSource tree of OriginalSource / raw leaves, chunk stream** (ASCII file contents, one content
+per file name): every chunk the ReplaceSource delivers is unmapped, or names — through the files the stream itself announces — a
+file with its content `T` and a line and column that are the *true* position in `T` of some byte `q` of `T`: the byte at which the
+delivered piece was cut out of a potential token of `T`, or at which replacement content was spliced in.
+Chain: every mapped chunk of the inner tree's stream is a token of its file at its true position (`ProvOK`: OriginalSource leaf,
+kept by ConcatSource's renumbering) ∘ the ReplaceSource records the announced contents under the same indices ∘ the recorded
+content spells out the inner chunk (`FM`) ∘ the advance rule (C06). -/
+theorem c04_replace_tree_stream (cons : Text → Option Text) (inner : Src) (ho : inner.OrigTree) (hw : Src.WD cons true inner)
+    (hasc : ∀ n T, cons n = some T → IsAscii T ∧ T.length < USIZE_MAX) (rs : List Repl) (final : Bool) (σ : Store) :
+    ∀ t' mm, Ev.chunk t' mm ∈ ((Src.replace inner rs).stream ⟨true, final⟩ σ).1.evs →
+      mm.orig = none ∨ ∃ name T q y, mm.orig = some y
+        ∧ tblS emptyS ((Src.replace inner rs).stream ⟨true, final⟩ σ).1.evs y.src = some (name, some T)
+        ∧ q < T.length ∧ adv startPos (T.take q) = ⟨y.line, y.col⟩ :=
+  replace_origTree_true cons inner ho hw hasc rs final σ
+
+/-- **… and through `map()`**: whatever the SourceMap returned for such a ReplaceSource resolves a byte of `source()` to — through
+the map's own `sources` / `sourcesContent` tables — is a file with its exact content and the true line and column of some byte of it.
+PARTIAL (w.r.t. the property): "a true position of the named file", not yet "the position the delivered byte was copied from"
+(that identification is decided by the provenance oracle). -/
+theorem c04_replace_tree_map (cons : Text → Option Text) (inner : Src) (ho : inner.OrigTree) (hw : Src.WD cons true inner)
+    (hasc : ∀ n T, cons n = some T → IsAscii T ∧ T.length < USIZE_MAX) (rs : List Repl)
+    (hr : ∀ r ∈ rs, r.start ≤ r.stop) (hlen : (replaceSource inner.src rs).length + 1 < 2 ^ 32) (final : Bool)
+    (hsmall : ∀ m ∈ chunkMs ((Src.replace inner rs).stream ⟨true, true⟩ []).1.evs, m.small)
+    (sm : SMap) (hm : (getMap (.replace inner rs) ⟨true, final⟩ []).1 = some sm) :
+    ∀ o, some o ∈ attrFrom (decode sm.mappings) startPos (replaceSource inner.src rs) →
+      ∃ name T q, sm.sources[o.src]? = some name ∧ sm.sourcesContent[o.src]? = some T ∧ q < T.length
+        ∧ adv startPos (T.take q) = ⟨o.line, o.col⟩ :=
+  replace_origTree_map cons inner ho hw hasc rs hr hlen final hsmall sm hm
 
 end Rs
